@@ -1,6 +1,7 @@
 package main
 
 import (
+	"google.golang.org/protobuf/runtime/protoiface"
 	"fmt"
 	"sync"
 
@@ -189,6 +190,77 @@ func runRace(cfg *Cfg) {
 			}
 		}
 	}
+	// ONE protoiface.Methods value (a single ProtoMethods() call) shared by goroutines that call its Size and Marshal
+	// functions directly, with and without the UseCachedSize flag, on two messages of different encoded sizes: the
+	// functions of a methods value are as reentrant as the proto API built on them (protobuf-go keeps one methods value
+	// per message type for its own generated code), so nothing may be carried from a Size call to a Marshal call
+	{
+		rr := vschema.NewRand(cfg.Seed + 23)
+		shared := 0
+		for _, t := range targets {
+			if shared >= 10 && cfg.Tier != "thorough" {
+				break
+			}
+			var msgs []proto.Message
+			var want [][]byte
+			for k := 0; k < 24 && len(msgs) < 2; k++ {
+				v := (&vval.GenOpts{MaxDepth: 2, EnumNums: enumNums(t), BigBlobs: k%2 == 1}).Message(rr, t.S, 0, 0)
+				m := t.B.ToMessage(0, v)
+				b, err := proto.MarshalOptions{Deterministic: true}.Marshal(m)
+				if err != nil || (len(msgs) == 1 && len(b) == len(want[0])) {
+					continue
+				}
+				msgs, want = append(msgs, m), append(want, append([]byte(nil), b...))
+			}
+			if len(msgs) < 2 {
+				continue
+			}
+			meth := protoMethodsOf(msgs[0])
+			if meth == nil || meth.Size == nil || meth.Marshal == nil {
+				continue
+			}
+			shared++
+			var wg sync.WaitGroup
+			var mu sync.Mutex
+			bad, pan := 0, ""
+			for g := 0; g < 8; g++ {
+				wg.Add(1)
+				go func(g int) {
+					defer wg.Done()
+					defer func() {
+						if e := recover(); e != nil {
+							mu.Lock()
+							pan = fmt.Sprint(e)
+							mu.Unlock()
+						}
+					}()
+					for it := 0; it < 200; it++ {
+						k := (g + it) % 2
+						var flags uint8 = 1 // MarshalDeterministic
+						if it%3 != 0 {
+							flags |= 2 // MarshalUseCachedSize
+						}
+						so := meth.Size(protoiface.SizeInput{Message: msgs[k].ProtoReflect(), Flags: flags})
+						mo, err := meth.Marshal(protoiface.MarshalInput{Message: msgs[k].ProtoReflect(), Flags: flags})
+						if err != nil || so.Size != len(want[k]) || string(mo.Buf) != string(want[k]) {
+							mu.Lock()
+							bad++
+							mu.Unlock()
+						}
+					}
+				}(g)
+			}
+			wg.Wait()
+			out.Case("race-shared-methods:"+t.Full, true)
+			out.Count("race_shared_methods_types")
+			replay := "race-shared-methods " + t.Full + ": one ProtoMethods() value, 8 goroutines, Size then Marshal (UseCachedSize in two of three rounds) on two messages of different sizes"
+			if pan != "" {
+				out.Violate("C11", "concurrent-read-panics", "Size/Marshal of one shared methods value panicked when called concurrently: "+firstLine(pan), replay)
+			} else if bad > 0 {
+				out.Violate("C11", "concurrent-read-differs", fmt.Sprintf("%d concurrent Size/Marshal calls through one shared methods value returned something else than the sequential result", bad), replay)
+			}
+		}
+	}
 	r := vschema.NewRand(cfg.Seed + 11)
 	vals := 6
 	gor := 8
@@ -274,4 +346,14 @@ func runRace(cfg *Cfg) {
 			}
 		}
 	}
+}
+
+
+// protoMethodsOf: the fast-path method table of a generated message (nil when it has none).
+func protoMethodsOf(m proto.Message) *protoiface.Methods {
+	type hasMethods interface{ ProtoMethods() *protoiface.Methods }
+	if h, ok := m.ProtoReflect().(hasMethods); ok {
+		return h.ProtoMethods()
+	}
+	return nil
 }
